@@ -38,6 +38,7 @@ type Event struct {
 }
 
 type Spec struct {
+	Tag         string       `json:"tag,omitempty"` // set on the dedicated witness histories of listed findings
 	Oneway      bool         `json:"oneway,omitempty"`
 	HasData     bool         `json:"data,omitempty"`
 	HasTrailers bool         `json:"trailers,omitempty"`
